@@ -457,3 +457,93 @@ Proof.
     rewrite (unset_frame _ _ _ _ _ D1 Un). exact (get_put_frame_field _ _ _ _ _ _ _ Fn D2 P).
   - rewrite (record_keys _ _ _ _ R2), (record_keys _ _ _ _ R1), <- app_assoc. reflexivity.
 Qed.
+
+(* ------------------------------------------------------------------ *)
+(* $unset on any number of pairwise disjoint plain field paths is idempotent
+   (documents with unique keys) *)
+
+Lemma remove_returns_get p : forall x x' pre old,
+  canon_path p -> put x p VMissing pre = Some (old, x') -> fst (Access.get x p false false) = old.
+Proof.
+  induction p as [|s r IH]; intros x x' pre old C P.
+  - rewrite put_nil in P. injection P as <- _. rewrite get_nil. reflexivity.
+  - inversion C as [|? ? Hs Hr]; subst.
+    pose proof (put_cons_not_empty _ _ _ _ _ _ P) as Hne.
+    destruct (put_cons_shape _ _ _ _ _ _ P) as [[e ->]|[[a ->]| ->]].
+    + rewrite put_doc, Hne in P. rewrite get_doc, Hne. destruct (lookup e s); [|discriminate].
+      destruct (put v r VMissing pre) as [[o y']|] eqn:Q; [|discriminate]. injection P as <- _.
+      eapply IH; eauto.
+    + rewrite put_arr, Hne in P. rewrite get_arr, Hne. red in Hs. rewrite <- Hs.
+      destruct (atoi s) as [i|]; [|discriminate]. destruct (i <? 0); [discriminate|].
+      destruct (i <? len a); [|discriminate]. destruct (nth_z a i); [|discriminate].
+      destruct (put v r VMissing pre) as [[o y']|] eqn:Q; [|discriminate]. injection P as <- _.
+      eapply IH; eauto.
+    + rewrite put_missing, Hne in P. discriminate.
+Qed.
+
+Lemma unset_step d ch ps v d1 ch1 :
+  uniq_keys (VDoc d) -> field_path (split_path ps) ->
+  apply_unset (d, ch) ps v = Ok (d1, ch1) ->
+  Get d1 ps = VMissing /\ uniq_keys (VDoc d1) /\
+  (forall q, disjoint (split_path ps) q -> get_path d1 q = get_path d q).
+Proof.
+  intros U F H. unfold apply_unset in H. cbn [fst snd] in H.
+  destruct (Unset d ps) as [old d'] eqn:E.
+  pose proof (split_path_nonempty ps) as Hp.
+  destruct (is_missing old) eqn:M.
+  - injection H as <- <-. split; [|split; [exact U | reflexivity]].
+    destruct (unset_path_changed _ _ _ _ E Hp) as [Q|(Q & _ & _)].
+    + unfold Get, get_path. rewrite (remove_returns_get _ _ _ _ _ (field_path_canon _ F) Q).
+      destruct old; try discriminate. reflexivity.
+    + exact (put_missing_none_get _ _ _ Q).
+  - destruct (record ch ps VMissing) as [ch'| | | |]; cbn [bind] in H; try discriminate.
+    injection H as <- <-.
+    destruct (unset_path_changed _ _ _ _ E Hp) as [Q|(_ & -> & _)]; [|discriminate].
+    split; [exact (get_after_remove_field _ _ _ _ _ F U Hp Q)|]. split.
+    + eapply put_preserves_uniq with (nv := VMissing); [exact U | apply uniq_scalar; intros; discriminate | exact Q].
+    + intros q D. exact (unset_frame _ _ _ _ _ D E).
+Qed.
+
+Lemma unset_noop D ch ps v :
+  field_path (split_path ps) -> Get D ps = VMissing -> apply_unset (D, ch) ps v = Ok (D, ch).
+Proof.
+  intros F G. unfold apply_unset. cbn [fst snd]. destruct (Unset D ps) as [old d'] eqn:E.
+  destruct (is_missing old) eqn:M; [reflexivity|]. exfalso.
+  assert (Ho : old <> VMissing) by (apply is_missing_false; exact M).
+  pose proof (unset_returns_old _ _ _ _ E Ho (field_path_canon _ F)) as X.
+  change (Get D ps = old) in X. congruence.
+Qed.
+
+Lemma unset_run_settles pairs : forall d ch dn chn,
+  uniq_keys (VDoc d) -> field_pairs pairs -> pairwise_disjoint (map fst pairs) ->
+  run apply_unset pairs (d, ch) = Ok (dn, chn) ->
+  Forall (fun kv => Get dn (fst kv) = VMissing) pairs /\
+  (forall q, Forall (fun kv => disjoint (split_path (fst kv)) q) pairs -> get_path dn q = get_path d q).
+Proof.
+  induction pairs as [|[p v] t IH]; intros d ch dn chn U F PD H.
+  - cbn in H. injection H as <- <-. split; [constructor | reflexivity].
+  - cbn [run] in H. inversion F as [|? ? Fp Ft]; subst. cbn [map fst pairwise_disjoint] in PD. destruct PD as [Dp PDt].
+    destruct (apply_unset (d, ch) p v) as [[d1 ch1]| | | |] eqn:E; cbn [bind] in H; try discriminate.
+    destruct (unset_step _ _ _ _ _ _ U Fp E) as (G1 & U1 & Fr1).
+    destruct (IH _ _ _ _ U1 Ft PDt H) as [S Fr]. split.
+    + constructor; [|exact S]. cbn [fst]. change (get_path dn (split_path p) = VMissing).
+      rewrite Fr; [exact G1|]. rewrite Forall_forall in *. intros kv Hin.
+      apply disjoint_sym. apply Dp. apply in_map. exact Hin.
+    + intros q Hq. inversion Hq; subst. cbn [fst] in *. rewrite Fr by assumption. apply Fr1. assumption.
+Qed.
+
+Theorem apply_unset_idempotent_list m d q pairs up fs now d1 ch1 :
+  plain_pairs pairs -> field_pairs pairs -> pairwise_disjoint (map fst pairs) -> uniq_keys (VDoc d) ->
+  apply_with m d q [("$unset"%string, VDoc pairs)] up fs now = Ok (d1, ch1) ->
+  exists ch2, apply_with m d1 q [("$unset"%string, VDoc pairs)] up fs now = Ok (d1, ch2).
+Proof.
+  intros PP F PD U H.
+  assert (Ha : exists g, assoc "$unset"%string (update_ops m up now) = Some (g, apply_unset)) by (eexists; reflexivity).
+  assert (Hk : starts_dollar "$unset"%string = true) by reflexivity.
+  destruct (apply_with_one_ok _ _ _ _ _ _ _ _ _ _ _ Hk Ha PP H) as [ch R].
+  destruct (unset_run_settles _ _ _ _ _ U F PD R) as [S _].
+  assert (R2 : run apply_unset pairs (d1, []) = Ok (d1, [])).
+  { clear -S F. revert S F. generalize (@nil (string * value)) as c. induction pairs as [|[p v] t IH]; intros c S F; [reflexivity|].
+    inversion S; subst. inversion F; subst. cbn [run]. rewrite unset_noop by assumption. cbn [bind]. apply IH; assumption. }
+  rewrite (apply_with_one _ _ _ _ _ _ _ _ _ Hk Ha PP), R2. cbn [bind fst snd]. eauto.
+Qed.
